@@ -1,11 +1,93 @@
-/- BDS 2,1 — crates/rs1090/src/decode/bds/bds21.rs   (STUB: not modelled yet) -/
+/- BDS 2,1 aircraft and airline registration markings — crates/rs1090/src/decode/bds/bds21.rs -/
 import Rs1090.Model.Decode.Common
+import Rs1090.Gen.Chars21
 namespace Rs1090.Model.Bds21
 open Rs1090 Rs1090.Model
 
-/-- STUB -/
-def modelled : Bool := false
+def modelled : Bool := true
 
-def read : R SerFields := R.fail .other
+open Rs1090.Gen.Chars21 (charLookup21 regLen airlineLen)
+/- `charLookup21` is bds21.rs's own copy of `CHAR_LOOKUP`
+   (`b"#ABCDEFGHIJKLMNOPQRSTUVWXYZ##### ###############0123456789######"`), GENERATED as byte values
+   together with the two loop bounds (`regLen = 7`, `airlineLen = 2`) by gen/extractors/bds21.py,
+   which also refuses to run when the registration regex is not the one implemented below. -/
+
+/-- `for _ in .. { let c = u8 (6 bits); if c != 32 { chars.push(c) } }` -/
+def readCodes : Nat → R (List Nat)
+  | 0 => pure []
+  | k + 1 => do
+    let c ← bits 6
+    let rest ← readCodes k
+    pure (if c != 32 then c :: rest else rest)
+
+/-- `chars.iter().all(|&x| x == 0)` (true for the empty list) -/
+def allZeros (codes : List Nat) : Bool := codes.all (· == 0)
+
+/-- `chars.into_iter().map(|b| CHAR_LOOKUP[b as usize] as char).collect::<String>()`
+    (bounds-checked index: a panic site if the table were shorter than 64) -/
+def encode : List Nat → Outcome (List Nat)
+  | [] => .ok []
+  | c :: rest => do
+    let b ← idx charLookup21 c
+    let r ← encode rest
+    pure (b :: r)
+
+/-! #### the regular expression `^[A-Z0-9]+[\s#]?[A-Z0-9]+$` as a five-state automaton -/
+
+/-- `[A-Z0-9]` -/
+def isAlnum (c : Nat) : Bool := (65 ≤ c && c ≤ 90) || (48 ≤ c && c ≤ 57)
+/-- `[\s#]` on the byte values the table can produce (ASCII white space, '#') -/
+def isSep (c : Nat) : Bool := c == 35 || c == 32 || (9 ≤ c && c ≤ 13)
+
+/-- states: 0 start · 1 one alphanumeric · 2 two or more alphanumerics, no separator (accepting)
+    · 3 separator just seen · 4 alphanumerics after the separator (accepting) · 5 dead -/
+def step (st c : Nat) : Nat :=
+  match st with
+  | 0 => if isAlnum c then 1 else 5
+  | 1 => if isAlnum c then 2 else if isSep c then 3 else 5
+  | 2 => if isAlnum c then 2 else if isSep c then 3 else 5
+  | 3 => if isAlnum c then 4 else 5
+  | 4 => if isAlnum c then 4 else 5
+  | _ => 5
+
+def runRe : Nat → List Nat → Nat
+  | st, [] => st
+  | st, c :: rest => runRe (step st c) rest
+
+/-- `re.is_match(&encoded)` -/
+def regexMatch (s : List Nat) : Bool :=
+  let st := runRe 0 s
+  st == 2 || st == 4
+
+/-- the decision at the end of `aircraft_registration_read`, as a pure function of the status
+    bit and the seven 6-bit codes left after dropping code 32 -/
+def aircraftRegistration (status : Bool) (codes : List Nat) : Outcome (Option (List Char)) := do
+  let enc ← encode codes
+  if status then
+    if regexMatch enc then .ok (some (enc.map Char.ofNat)) else .err .assertion
+  else if allZeros codes then .ok none
+  else .err .assertion
+
+/-- the decision at the end of `airline_registration_read`: a set status bit is *always* refused -/
+def airlineRegistration (status : Bool) (codes : List Nat) : Outcome (Option (List Char)) := do
+  let _enc ← encode codes
+  if status then .err .assertion
+  else if allZeros codes then .ok none
+  else .err .assertion
+
+/-- `AircraftAndAirlineRegistrationMarkings`: 1 + 7·6 + 1 + 2·6 = 56 bits.
+    serde: both status bits skipped, `registration` is an `Option<String>` without
+    `skip_serializing_if` (so `null` when absent), `airline` is skipped when `None`
+    (it can never be `Some`). -/
+def read : R SerFields := do
+  let acStatus ← flag
+  let codes ← readCodes regLen
+  let reg ← R.lift (aircraftRegistration acStatus codes)
+  let alStatus ← flag
+  let acodes ← readCodes airlineLen
+  let airline ← R.lift (airlineRegistration alStatus acodes)
+  pure <| tagged (key! "bds") (key! "21") <| .ok [
+    fldOpt (key! "registration") (reg.map Json.chars),
+    skipNone (key! "airline") (airline.map Json.chars) ]
 
 end Rs1090.Model.Bds21
